@@ -615,4 +615,425 @@ def evalArgs (ρ : Env) : CalcArgs → Option (List Rat)
     | _, _ => Option.none
 end
 
+/-! ### the printed form (`write_calculation_arg`, serializer.rs:335) -/
+
+inductive Tok where
+  | num (n : Rat) (u : CUnit)
+  | atom (id : Nat)
+  | op (o : Op)
+  | lp | rp | comma
+  | fn (name : CName)          -- `calc(` / `min(` / `max(` / `clamp(`
+  deriving DecidableEq, Repr
+
+/-- `paren_left` (serializer.rs:346). -/
+def parenLeft (l : CalcArg) (op : Op) : Bool :=
+  match l with
+  | .interp _ => true
+  | .operation _ op2 _ => op2.prec < op.prec
+  | _ => false
+
+/-- `CalculationArg::parenthesize_calculation_rhs` (calculation.rs:29). -/
+def parenRhsOp (outer right : Op) : Bool :=
+  if outer = .div then true
+  else if outer = .plus then false
+  else right = .plus || right = .minus
+
+/-- `paren_right` (serializer.rs:374). -/
+def parenRight (op : Op) (r : CalcArg) : Bool :=
+  match r with
+  | .interp _ => true
+  | .operation _ op2 _ => parenRhsOp op op2
+  | _ => false
+
+def wrap (b : Bool) (ts : List Tok) : List Tok := if b then .lp :: (ts ++ [.rp]) else ts
+
+mutual
+/-- `write_calculation_arg`, as a token list (operator whitespace is lexical only). -/
+def pr : CalcArg → List Tok
+  | .number n u => [.num n u]
+  | .str id p => if p then [.lp, .atom id, .rp] else [.atom id]
+  | .interp id => [.atom id]
+  | .calculation name args => .fn name :: (prArgs args ++ [.rp])
+  | .operation l op r => wrap (parenLeft l op) (pr l) ++ (.op op :: wrap (parenRight op r) (pr r))
+/-- the argument loop of `visit_calculation` (serializer.rs:318). -/
+def prArgs : CalcArgs → List Tok
+  | .nil => []
+  | .cons a as =>
+    match as with
+    | .nil => pr a
+    | .cons _ _ => pr a ++ (.comma :: prArgs as)
+end
+
+/-! ### reading the printed form back: the CSS `calc()` grammar
+    (the same productions as `parse_calculation_sum/product/value`, parse/value.rs:1518–1675).
+    Fuel = recursion depth budget; `parseToks` supplies `3·length + 3`, proved sufficient. -/
+
+mutual
+def pAtom : Nat → List Tok → Option (CalcArg × List Tok)
+  | 0, _ => Option.none
+  | f + 1, ts =>
+    match ts with
+    | .num n u :: ts => some (.number n u, ts)
+    | .atom id :: ts => some (.str id false, ts)
+    | .lp :: ts =>
+      match pSum f ts with
+      | some (e, .rp :: ts') => some (e, ts')
+      | _ => Option.none
+    | .fn name :: ts =>
+      match pArgs f ts with
+      | some (as, .rp :: ts') => some (.calculation name as, ts')
+      | _ => Option.none
+    | _ => Option.none
+def pProdLoop : Nat → CalcArg → List Tok → Option (CalcArg × List Tok)
+  | 0, _, _ => Option.none
+  | f + 1, acc, ts =>
+    match ts with
+    | .op .mul :: ts' =>
+      match pAtom f ts' with
+      | some (b, ts'') => pProdLoop f (.operation acc .mul b) ts''
+      | Option.none => Option.none
+    | .op .div :: ts' =>
+      match pAtom f ts' with
+      | some (b, ts'') => pProdLoop f (.operation acc .div b) ts''
+      | Option.none => Option.none
+    | _ => some (acc, ts)
+def pProd : Nat → List Tok → Option (CalcArg × List Tok)
+  | 0, _ => Option.none
+  | f + 1, ts =>
+    match pAtom f ts with
+    | some (a, ts') => pProdLoop f a ts'
+    | Option.none => Option.none
+def pSumLoop : Nat → CalcArg → List Tok → Option (CalcArg × List Tok)
+  | 0, _, _ => Option.none
+  | f + 1, acc, ts =>
+    match ts with
+    | .op .plus :: ts' =>
+      match pProd f ts' with
+      | some (b, ts'') => pSumLoop f (.operation acc .plus b) ts''
+      | Option.none => Option.none
+    | .op .minus :: ts' =>
+      match pProd f ts' with
+      | some (b, ts'') => pSumLoop f (.operation acc .minus b) ts''
+      | Option.none => Option.none
+    | _ => some (acc, ts)
+def pSum : Nat → List Tok → Option (CalcArg × List Tok)
+  | 0, _ => Option.none
+  | f + 1, ts =>
+    match pProd f ts with
+    | some (a, ts') => pSumLoop f a ts'
+    | Option.none => Option.none
+def pArgs : Nat → List Tok → Option (CalcArgs × List Tok)
+  | 0, _ => Option.none
+  | f + 1, ts =>
+    match pSum f ts with
+    | some (a, .comma :: ts') =>
+      match pArgs f ts' with
+      | some (as, ts'') => some (.cons a as, ts'')
+      | Option.none => Option.none
+    | some (a, ts') => some (.cons a .nil, ts')
+    | Option.none => Option.none
+end
+
+def parseFuel (ts : List Tok) : Nat := 3 * ts.length + 3
+
+/-- Read one printed calculation argument (the whole token list must be consumed). -/
+def parseToks (ts : List Tok) : Option CalcArg :=
+  match pSum (parseFuel ts) ts with
+  | some (a, []) => some a
+  | _ => Option.none
+
+/-! ### driver-side helpers (not theorem-facing): approximate comparison for f64-printed numbers -/
+
+def rabs (x : Rat) : Rat := if x < 0 then -x else x
+
+/-- Bound on |printed − exact| for one number written with `{:.10}` after f64 arithmetic:
+    half a unit in the 10th decimal plus relative f64 slack. -/
+def numErr (n : Rat) : Rat := 6 / 100000000000 + rabs n / 1000000000000
+
+def Env.unit : Env := ⟨1, 1, 1, 1, 1, 1, 1, fun _ => some 1⟩
+
+mutual
+/-- value and first-order error bound of an expression whose numbers carry `numErr`. -/
+def evalErr (ρ : Env) : CalcArg → Option (Rat × Rat)
+  | .number n u => some (n * unitVal ρ u, numErr n * rabs (unitVal ρ u))
+  | .str id _ => (ρ.atom id).map (·, 0)
+  | .interp id => (ρ.atom id).map (·, 0)
+  | .operation l op r =>
+    match evalErr ρ l, evalErr ρ r with
+    | some (x, ex), some (y, ey) =>
+      match op with
+      | .plus => some (x + y, ex + ey)
+      | .minus => some (x - y, ex + ey)
+      | .mul => some (x * y, rabs x * ey + rabs y * ex + ex * ey)
+      | .div => if rabs y ≤ 2 * ey then Option.none
+                else some (x / y, (ex + rabs (x / y) * ey) / (rabs y - ey))
+    | _, _ => Option.none
+  | .calculation name args =>
+    match evalErrArgs ρ args with
+    | some (vs, e) => (evalFn name vs).map (·, e)
+    | Option.none => Option.none
+def evalErrArgs (ρ : Env) : CalcArgs → Option (List Rat × Rat)
+  | .nil => some ([], 0)
+  | .cons a as =>
+    match evalErr ρ a, evalErrArgs ρ as with
+    | some (x, e), some (xs, es) => some (x :: xs, e + es)
+    | _, _ => Option.none
+end
+
+mutual
+def approxEq : CalcArg → CalcArg → Bool
+  | .number n u, .number m v =>
+    (u == v && rabs (n - m) ≤ numErr n) ||
+    (compatible u v && !u.isComplex && !v.isComplex &&
+      rabs (n * unitVal Env.unit u - m * unitVal Env.unit v) ≤ numErr n * unitVal Env.unit u + numErr m * unitVal Env.unit v)
+  | .str i _, .str j _ => i == j
+  | .str i _, .interp j => i == j
+  | .interp i, .str j _ => i == j
+  | .interp i, .interp j => i == j
+  | .operation l op r, .operation l' op' r' => op == op' && approxEq l l' && approxEq r r'
+  | .calculation nm as, .calculation nm' as' => nm == nm' && approxEqArgs as as'
+  | _, _ => false
+def approxEqArgs : CalcArgs → CalcArgs → Bool
+  | .nil, .nil => true
+  | .cons a as, .cons b bs => approxEq a b && approxEqArgs as bs
+  | _, _ => false
+end
+
+/-! ### driver entry points -/
+open Grass.Proto
+
+def buOfStr : String → Option BU
+  | "px" => some .px | "in" => some .inch | "cm" => some .cm | "mm" => some .mm | "pt" => some .pt
+  | "em" => some .em | "rem" => some .rem | "%" => some .pct | "vw" => some .vw
+  | "deg" => some .deg | "turn" => some .turn | "s" => some .s | "ms" => some .ms
+  | _ => Option.none
+
+def buStr : BU → String
+  | .px => "px" | .inch => "in" | .cm => "cm" | .mm => "mm" | .pt => "pt"
+  | .em => "em" | .rem => "rem" | .pct => "%" | .vw => "vw"
+  | .deg => "deg" | .turn => "turn" | .s => "s" | .ms => "ms"
+
+def busOfStr (s : String) : Option (List BU) :=
+  if s == "1" || s == "" then some [] else (s.splitOn "*").mapM buOfStr
+
+/-- `-` | `px` | `px*em/s*s` | `1/s` -/
+def unitOfStr (s : String) : Option CUnit :=
+  if s == "-" then some CUnit.none else
+  match s.splitOn "/" with
+  | [n] => (busOfStr n).map (⟨·, []⟩)
+  | [n, d] => do let n ← busOfStr n; let d ← busOfStr d; some ⟨n, d⟩
+  | _ => Option.none
+
+def busStr (l : List BU) : String := if l.isEmpty then "1" else "*".intercalate (l.map buStr)
+
+def unitStr (u : CUnit) : String :=
+  if u.isNone then "-" else if u.denom.isEmpty then busStr u.numer else busStr u.numer ++ "/" ++ busStr u.denom
+
+/-- `p/q` or `p` -/
+def ratOfStr (s : String) : Option Rat :=
+  match s.splitOn "/" with
+  | [p] => p.toInt?.map (fun i => (i : Rat))
+  | [p, q] => do
+    let p ← p.toInt?; let q ← q.toNat?
+    if q = 0 then Option.none else some (mkRat p q)
+  | _ => Option.none
+
+def ratStr (r : Rat) : String := if r.den = 1 then toString r.num else s!"{r.num}/{r.den}"
+
+def opOfStr : String → Option Op
+  | "+" => some .plus | "-" => some .minus | "*" => some .mul | "/" => some .div | _ => Option.none
+def opStr : Op → String
+  | .plus => "+" | .minus => "-" | .mul => "*" | .div => "/"
+def nameOfStr : String → Option CName
+  | "calc" => some .calc | "min" => some .min | "max" => some .max | "clamp" => some .clamp | _ => Option.none
+def nameStr : CName → String
+  | .calc => "calc" | .min => "min" | .max => "max" | .clamp => "clamp"
+
+mutual
+/-- prefix tree syntax: `n <rat> <unit>` | `s <id> <0|1>` | `i <id>` | `o <op> L R` | `c <name> <k> A1…Ak` -/
+def readTree : Nat → List String → Option (CalcArg × List String)
+  | 0, _ => Option.none
+  | f + 1, ts =>
+    match ts with
+    | "n" :: r :: u :: rest =>
+      match ratOfStr r, unitOfStr u with
+      | some r, some u => some (.number r u, rest)
+      | _, _ => Option.none
+    | "s" :: id :: p :: rest =>
+      match id.toNat?, parseBool? p with
+      | some id, some p => some (.str id p, rest)
+      | _, _ => Option.none
+    | "i" :: id :: rest => id.toNat?.map (fun id => (.interp id, rest))
+    | "o" :: op :: rest =>
+      match opOfStr op with
+      | some op =>
+        match readTree f rest with
+        | some (l, rest) =>
+          match readTree f rest with
+          | some (r, rest) => some (.operation l op r, rest)
+          | Option.none => Option.none
+        | Option.none => Option.none
+      | Option.none => Option.none
+    | "c" :: nm :: k :: rest =>
+      match nameOfStr nm, k.toNat? with
+      | some nm, some k =>
+        match readTrees f k rest with
+        | some (as, rest) => some (.calculation nm as, rest)
+        | Option.none => Option.none
+      | _, _ => Option.none
+    | _ => Option.none
+def readTrees : Nat → Nat → List String → Option (CalcArgs × List String)
+  | 0, _, _ => Option.none
+  | _ + 1, 0, ts => some (.nil, ts)
+  | f + 1, k + 1, ts =>
+    match readTree f ts with
+    | some (a, rest) =>
+      match readTrees f k rest with
+      | some (as, rest) => some (.cons a as, rest)
+      | Option.none => Option.none
+    | Option.none => Option.none
+end
+
+mutual
+def treeStr : CalcArg → String
+  | .number n u => s!"n {ratStr n} {unitStr u}"
+  | .str id p => s!"s {id} {boolStr p}"
+  | .interp id => s!"i {id}"
+  | .operation l op r => s!"o {opStr op} {treeStr l} {treeStr r}"
+  | .calculation nm as => s!"c {nameStr nm} {(CalcArgs.toList as).length}{treesStr as}"
+def treesStr : CalcArgs → String
+  | .nil => ""
+  | .cons a as => " " ++ treeStr a ++ treesStr as
+end
+
+/-- `N:<rat>:<unit>` | `A:<id>` | `+ - * / ( ) ,` | `F:<name>` -/
+def tokOfStr (s : String) : Option Tok :=
+  match s with
+  | "+" => some (.op .plus) | "-" => some (.op .minus) | "*" => some (.op .mul) | "/" => some (.op .div)
+  | "(" => some .lp | ")" => some .rp | "," => some .comma
+  | _ =>
+    match s.splitOn ":" with
+    | ["N", r, u] => do let r ← ratOfStr r; let u ← unitOfStr u; some (.num r u)
+    | ["A", id] => id.toNat?.map .atom
+    | ["F", nm] => (nameOfStr nm).map .fn
+    | _ => Option.none
+
+def tokStr : Tok → String
+  | .num n u => s!"N:{ratStr n}:{unitStr u}"
+  | .atom id => s!"A:{id}"
+  | .op o => opStr o
+  | .lp => "(" | .rp => ")" | .comma => ","
+  | .fn nm => s!"F:{nameStr nm}"
+
+def errStr : Err → String
+  | .incompatible => "incompatible" | .complexInCalc => "complex-in-calc" | .badLength => "bad-length"
+  | .invalidCssValue => "invalid-css-value" | .nonFinite => "non-finite"
+
+def outStr : Res Out → String
+  | .ok o => s!"ok {boolStr o.coerced} {treeStr o.arg}"
+  | .err e => s!"err {errStr e}"
+  | .panic => "panic"
+
+def cfgOfStr : String → Option Cfg
+  | "now" => some Cfg.now | "spec" => some Cfg.spec | "d1" => some Cfg.asFoundD1 | _ => Option.none
+
+/-- `px deg s em rem pct vw a0 a1 …` -/
+def envOfStrs (ss : List String) : Option Env :=
+  match ss.mapM ratOfStr with
+  | some (px :: deg :: s :: em :: rem :: pct :: vw :: atoms) =>
+    some ⟨px, deg, s, em, rem, pct, vw, fun i => atoms[i]?⟩
+  | _ => Option.none
+
+def splitOnTok (sep : String) (ts : List String) : List (List String) :=
+  let rec go : List String → List String → List (List String) → List (List String)
+    | [], cur, acc => (cur.reverse :: acc).reverse
+    | t :: ts, cur, acc => if t == sep then go ts [] (cur.reverse :: acc) else go ts (t :: cur) acc
+  go ts [] []
+
+def readWhole (ts : List String) : Option CalcArg :=
+  match readTree (ts.length + 1) ts with
+  | some (a, []) => some a
+  | _ => Option.none
+
+/-- P̂ on one environment, for an output whose numbers were printed with 10 decimals:
+    `none` = holds; otherwise the reason. -/
+def valueVerdict (ρ : Env) (src out : CalcArg) : Option String :=
+  match evalCalc ρ src with
+  | Option.none => Option.none                      -- the source denotes nothing here (division by zero)
+  | some v =>
+    match evalCalc ρ out with
+    | Option.none => some "out-undefined"
+    | some _ =>
+      match evalErr ρ out with
+      | Option.none => Option.none                  -- ill-conditioned divisor: no verdict
+      | some (w, e) => if rabs (v - w) ≤ e then Option.none else some "differs"
+
+def firstFail (envs : List Env) (src out : CalcArg) : Option (Nat × String) :=
+  let rec go : List Env → Nat → Option (Nat × String)
+    | [], _ => Option.none
+    | ρ :: ρs, i => match valueVerdict ρ src out with
+      | some why => some (i, why)
+      | Option.none => go ρs (i + 1)
+  go envs 0
+
+def definedCount (envs : List Env) (src : CalcArg) : Nat :=
+  (envs.filter (fun ρ => (evalCalc ρ src).isSome)).length
+
+def resEqApprox (a b : Res Out) : Bool :=
+  match a, b with
+  | .ok x, .ok y => x.coerced == y.coerced && approxEq x.arg y.arg
+  | .err e, .err e' => e == e'
+  | .panic, .panic => true
+  | _, _ => false
+
+def handle : List String → String
+  | "simp" :: cfg :: tree =>
+    match cfgOfStr cfg, readWhole tree with
+    | some cfg, some t => outStr (compile cfg t)
+    | _, _ => "bad-op"
+  | "print" :: tree =>
+    match readWhole tree with
+    | some t => "ok " ++ " ".intercalate ((pr t).map tokStr)
+    | Option.none => "bad-op"
+  | "parse" :: toks =>
+    match toks.mapM tokOfStr with
+    | some ts => match parseToks ts with
+      | some a => "ok " ++ treeStr a
+      | Option.none => "reject"
+    | Option.none => "bad-op"
+  | "table" :: to :: frm :: [] =>
+    match buOfStr to, buOfStr frm with
+    | some t, some f => match table t f with
+      | some r => "ok " ++ ratStr r
+      | Option.none => "ok none"
+    | _, _ => "bad-op"
+  | "check" :: rest =>
+    -- check <env> | <env> … ; <source tree> ; <tokens of the implementation's output>
+    match splitOnTok ";" rest with
+    | [envs, tree, toks] =>
+      match (splitOnTok "|" envs).mapM envOfStrs, readWhole tree, toks.mapM tokOfStr with
+      | some envs, some src, some toks =>
+        let model := compile Cfg.now src
+        let spec := compile Cfg.spec src
+        let specSame := resEqApprox model spec
+        let modelS := outStr model
+        match parseToks toks with
+        | Option.none => s!"ok impl-unparsed specsame={boolStr specSame} model= {modelS}"
+        | some it =>
+          let tie := match model with
+            | .ok mo => match parseToks (pr mo.arg) with
+              | some mt => approxEq mt it
+              | Option.none => false
+            | _ => false
+          let reprint := match parseToks (pr src) with
+            | some s' => (envs.all fun ρ => evalCalc ρ s' == evalCalc ρ src)
+            | Option.none => false
+          let val := match firstFail envs src it with
+            | Option.none => "holds"
+            | some (i, why) => s!"fails:{i}:{why}"
+          s!"ok tie={boolStr tie} val={val} defined={definedCount envs src} reprint={boolStr reprint} specsame={boolStr specSame} model= {modelS} impl= {treeStr it}"
+      | _, _, _ => "bad-op"
+    | _ => "bad-op"
+  | _ => "bad-op"
+
 end Grass.Calc
